@@ -14,11 +14,17 @@ from mysql_mimic import packets
 from mysql_mimic.results import ResultColumn, ensure_result_set, infer_type
 from mysql_mimic.types import ColumnType as CT
 
-HEADER = """From Coq Require Import List NArith ZArith.
+HEADER = """From Coq Require Import List NArith ZArith Bool.
 From MM Require Import Lib.Bytes Lib.Bitmap Lib.Decimal Model.Values.
 Import ListNotations. Open Scope N_scope.
 Definition chk_time (us : Z) (b t : bytes) := (match dec_bin_time b with Some (z, []) => Z.eqb z us | _ => false end,
                                                match dec_text_time t with Some z => Z.eqb z us | None => false end).
+Definition eq7 (a b : N * N * N * N * N * N * N) : bool :=
+  let '(a1, a2, a3, a4, a5, a6, a7) := a in let '(b1, b2, b3, b4, b5, b6, b7) := b in
+  (a1 =? b1) && (a2 =? b2) && (a3 =? b3) && (a4 =? b4) && (a5 =? b5) && (a6 =? b6) && (a7 =? b7).
+Definition chk_dt (f : N * N * N * N * N * N * N) (b t : bytes) :=
+  (match dec_bin_datetime b with Some (g, []) => eq7 f g | _ => false end,
+   match dec_text_datetime t with Some g => eq7 f g | None => false end).
 """
 
 INT_TYPES = {CT.TINY: 1, CT.SHORT: 2, CT.YEAR: 2, CT.LONG: 4, CT.INT24: 4, CT.LONGLONG: 8}
@@ -64,14 +70,21 @@ def domain(rng, ty):
     if ty == CT.DOUBLE:
         return [0.0, 1.5, -2.25, 0.1, 1e100, -1e-300, 1 / 3]
     if ty == CT.DATE:
-        return [date(1, 1, 1), date(9999, 12, 31), date(2024, 2, 29), datetime(2020, 5, 6, 7, 8, 9)]
+        return [date(1, 1, 1), date(9999, 12, 31), date(2024, 2, 29), datetime(2020, 5, 6, 7, 8, 9)] + [rand_dt(rng).date() for _ in range(4)]
     if ty in (CT.DATETIME, CT.TIMESTAMP):
-        return [datetime(1, 1, 1), datetime(9999, 12, 31, 23, 59, 59, 999999), datetime(2024, 2, 29, 13, 0, 0), datetime(2000, 1, 1, 0, 0, 0, 5), date(2021, 3, 4)]
+        return [datetime(1, 1, 1), datetime(9999, 12, 31, 23, 59, 59, 999999), datetime(2024, 2, 29, 13, 0, 0), datetime(2000, 1, 1, 0, 0, 0, 5), date(2021, 3, 4),
+                datetime(1999, 12, 31, 0, 0, 1), datetime(1999, 12, 31, 0, 1, 0), datetime(1999, 12, 31, 1, 0, 0), datetime(256, 1, 1, 0, 0, 0, 256 ** 2)] + [rand_dt(rng) for _ in range(6)]
     if ty == CT.TIME:
         return [timedelta(0), timedelta(seconds=1), timedelta(seconds=-1), timedelta(hours=25), timedelta(days=-2, hours=-3), timedelta(microseconds=1),
                 timedelta(microseconds=-1), timedelta(days=34, hours=23, minutes=59, seconds=59, microseconds=999999), timedelta(hours=-838, minutes=-59, seconds=-59),
                 timedelta(seconds=rng.randint(-10 ** 7, 10 ** 7), microseconds=rng.randint(0, 999999))]
     return []
+
+
+def rand_dt(rng):
+    """dates with each time field independently zero or not (the encodings branch on which trailing fields are zero)"""
+    z = lambda hi: 0 if rng.random() < 0.5 else rng.randint(1, hi)  # noqa: E731
+    return datetime(rng.randint(1, 9999), rng.randint(1, 12), rng.randint(1, 28), z(23), z(59), z(59), z(999999))
 
 
 TYPES = list(INT_TYPES) + [CT.BOOL] + STR_TYPES + [CT.FLOAT, CT.DOUBLE, CT.DATE, CT.DATETIME, CT.TIMESTAMP, CT.TIME]
@@ -136,12 +149,21 @@ def run(ctx: core.Ctx):
             b, t = col.binary_encode(v), col.text_encode(v)
             if int.from_bytes(b, "little", signed=True) != v or int(t.decode()) != v:
                 witness = witness or dict(kind="INT", type=ty.name, value=v, binary=list(b), text=t.decode())
-        if ty in (CT.DATE, CT.DATETIME, CT.TIMESTAMP):
-            col = ResultColumn("c", ty)
-            b = col.binary_encode(v)
-            y, = struct.unpack_from("<H", b, 1) if b[0] else (0,)
-            if b[0] and (y, b[3], b[4]) != (v.year, v.month, v.day):
-                witness = witness or dict(kind="DATE", value=repr(v), binary=list(b))
+    dts = [(ty, v) for ty, v in cells if ty in (CT.DATE, CT.DATETIME, CT.TIMESTAMP)]
+    terms = []
+    for ty, v in dts:
+        col = ResultColumn("c", ty)
+        f = (v.year, v.month, v.day) + ((v.hour, v.minute, v.second, v.microsecond) if isinstance(v, datetime) else (0, 0, 0, 0))
+        try:
+            b, t = col.binary_encode(v), col.text_encode(v)
+        except Exception as e:  # noqa
+            witness = witness or dict(kind="date-encode", type=ty.name, value=repr(v), error=repr(e))
+            continue
+        terms.append((ty, v, "chk_dt (%s) %s %s" % (", ".join(map(str, f)), core.coq_N_list(b), core.coq_N_list(t)), b, t))
+    res = core.run_coq_terms(ctx, "c05dt", HEADER, [t[2] for t in terms])
+    for (ty, v, _, b, t), r in zip(terms, res):
+        if r != (True, True) and witness is None:
+            witness = dict(kind="DATE/DATETIME", type=ty.name, value=repr(v), binary=list(b), text=t.decode(), decodes_binary=r[0], decodes_text=r[1])
 
     # ---- rows: every NULL pattern for small shapes, bitmap boundaries --------------------------------------------------
     rows_cases = []
